@@ -424,6 +424,11 @@ def finish(res, level_text_extra=None):
             os.remove(os.path.join(VERIF, "replays", fn))
     seen_sig = set()
     known_printed = set()
+    if os.environ.get("VERIF_SHOW_KNOWN"):
+        cnt = {}
+        for v in res.violations:
+            cnt[v["signature"]] = cnt.get(v["signature"], 0) + 1
+        log("  [signatures] " + json.dumps(cnt))
     for v in res.violations:
         if v["signature"] in seen_sig:
             continue
@@ -433,6 +438,8 @@ def finish(res, level_text_extra=None):
         k = next((k for k in known if (k.get("signature") == v["signature"]) or
                   (k.get("signature_re") and re.fullmatch(k["signature_re"], v["signature"]))), None)
         if k:
+            if os.environ.get("VERIF_SHOW_KNOWN"):
+                log(f"  [known] {v['signature']}: {v['what'][:400]}")
             kid = k.get("signature") or k.get("signature_re")
             if kid not in known_printed:
                 known_printed.add(kid)
